@@ -86,8 +86,10 @@ class BufferedByteReceiveStream(ByteReceiveStream):
                 chunk = await self.receive_stream.receive()
 
             if len(chunk) > max_bytes:
-                # Save the surplus bytes in the buffer
-                self._buffer.extend(chunk[max_bytes:])
+                # Save the surplus bytes at the front of the buffer (the buffer was
+                # empty when we started waiting, but feed_data() may have been called
+                # in the meantime and that data must not split the received item)
+                self._buffer[:0] = chunk[max_bytes:]
                 return chunk[:max_bytes]
             else:
                 return chunk
